@@ -21,8 +21,17 @@ criterion, iteration limit.
   T_C13_setup_*    add_clamp / add_link: refused calls leave nothing behind, accepted ones hit the junction meant
   T_C13_on_line, T_C13_links_translation   C17's LineClamp / TranslationLink as instances
   T_C13_backport_mesh / _sketch   mesh vertices / sketch positions after the back-port = final grid points
+  round 6:
+  T_C13_tie_*      the guards / operators / constants / defaults / statement lists regenerated from the source by
+                   `cbv/tables/c13.py` parse to the model's expressions, whose meaning is the model's functions
+  T_C13_driver_*   IterationDriver: built by begin/end_iteration, its `converged` is the loop's exit test,
+                   tolerance ≤ 0 never stops early, an iteration without improvement stops
+  T_C13_report_*   the reporter records are truthful, telescope, one per clamp and iteration; the printed overall
+                   improvement is initial − final = the sum of all step improvements
+  T_C13_noworse_history   any number of optimize() calls
 -/
 import CBV.Lemmas.C13
+import CBV.Lemmas.C13R6
 import CBV.Props.C17
 import Mathlib.Data.List.Perm.Basic
 import Mathlib.Order.Basic
@@ -483,6 +492,332 @@ example : sketchUpdate [[0, 1, 4, 3], [1, 2, 5, 4]] ([10, 11, 12, 13, 14, 15] : 
 /-- hypothesis of `T_C13_backport_mesh` -/
 example : backportMesh [10, 20, 30] [0, 2, 12] = ([0, 2, 12] : List Int) := by decide
 
+/-! ## Round 6 -/
 
+/-! ### tie: the source's guards, operators and constants, regenerated by `cbv/tables/c13.py` -/
+
+/-- `TOL`, `VSMALL`, `VBIG` of `util/constants.py` are the model's constants. -/
+theorem T_C13_tie_consts :
+    CBV.Gen.c13Consts.map (fun c => (c.1, (c.2.1 : Rat) / (c.2.2 : Rat))) =
+      [("TOL", tolGeom), ("VSMALL", vsmall), ("VBIG", vbig)] := by decide +kernel
+
+/-- `ClampOptimizationData.improvement` as written in the source means `grid_initial − grid_final`, the model's
+    `Reporter.improvement`, for every record. -/
+theorem T_C13_tie_reporter_improvement (r : Reporter Rat) :
+    (parseCascade CBV.Gen.c13SrcReporterImprovement).map (evalCascade (envReporter r)) = some (.num r.improvement) := by
+  rw [parse_reporterImprovement]; exact congrArg some (eval_reporterImprovement r)
+
+/-- The test in front of the roll-back in `optimize_clamp`, as written in the source (`reporter.improvement <= 0`),
+    holds exactly when `grid_initial ≤ grid_final` — the test `optimizeClamp` makes (`if gi ≤ gf`). A `<` instead of
+    `<=`, a swapped difference or another constant breaks this. -/
+theorem T_C13_tie_rollback_test (r : Reporter Rat) :
+    (parseRPN CBV.Gen.c13SrcRollbackTest).map (·.eval (envReporter r)) =
+      some (.bool (decide (r.gridInitial ≤ r.gridFinal))) := by
+  rw [parse_rollbackTest]; exact congrArg some (eval_rollbackTest r)
+
+/-- `IterationData.improvement` (with its `VSMALL` floor) means the model's `IterData.improvement`. -/
+theorem T_C13_tie_iter_improvement (d : IterData) :
+    (parseCascade CBV.Gen.c13SrcIterImprovement).map (evalCascade (envIter d)) = some (.num d.improvement) := by
+  rw [parse_iterImprovement]; exact congrArg some (eval_iterImprovement d)
+
+/-- `IterationDriver.initial_improvement` / `last_improvement` mean the model's. -/
+theorem T_C13_tie_driver_improvements (d : Driver) :
+    (parseCascade CBV.Gen.c13SrcInitialImprovement).map (evalCascade (envDriver d)) = some (.num d.initialImprovement) ∧
+      (parseCascade CBV.Gen.c13SrcLastImprovement).map (evalCascade (envDriver d)) = some (.num d.lastImprovement) := by
+  rw [parse_initialImprovement, parse_lastImprovement]
+  exact ⟨congrArg some (eval_initialImprovement d), congrArg some (eval_lastImprovement d)⟩
+
+/-- `IterationDriver.converged` as written in the source — the order of its three tests, `>=`, `< 2`, the quotient
+    and `< tolerance` — means the model's `Driver.converged`, `ZeroDivisionError` included, for every driver. -/
+theorem T_C13_tie_converged (d : Driver) :
+    (parseCascade CBV.Gen.c13SrcConverged).map (evalCascade (envDriver d)) = some d.converged.val := by
+  rw [parse_converged]; exact congrArg some (eval_converged d)
+
+/-- `GridBase.update` answers with the grid quality exactly when `len(junction.links) > 0` — the branch
+    `gridUpdate` takes on `linksOf cfg idx`. -/
+theorem T_C13_tie_update_guard (cfg : Cfg P Prm) (o : Oracles P Q) (pts : List P) (idx : Nat) (p : P) :
+    (parseRPN CBV.Gen.c13SrcUpdateGuard).map (·.eval (fun i => if i = 13 then ((linksOf cfg idx).length : Rat) else 0)) =
+        some (.bool (decide (0 < (linksOf cfg idx).length))) ∧
+      (gridUpdate cfg o pts idx p).2 =
+        if 0 < (linksOf cfg idx).length then o.gq (updPts cfg pts idx p) else o.jq idx (updPts cfg pts idx p) := by
+  rw [parse_updateGuard]
+  refine ⟨congrArg some (eval_updateGuard _), ?_⟩
+  unfold gridUpdate
+  cases linksOf cfg idx <;> simp
+
+/-- the probe step `epsilon=10 * TOL` -/
+theorem T_C13_tie_probe_epsilon :
+    (parseRPN CBV.Gen.c13SrcProbeEpsilon).map (·.eval (fun _ => 0)) = some (.num (1 / 1000000)) := by
+  rw [parse_probeEpsilon]; decide +kernel
+
+/-- default arguments, method names: the model's constants are the source's. -/
+theorem T_C13_tie_defaults :
+    defaultMaxIter = CBV.Gen.c13DefaultMaxIterations ∧
+      defaultTol = (CBV.Gen.c13DefaultTolerance.1 : Rat) / (CBV.Gen.c13DefaultTolerance.2 : Rat) ∧
+      CBV.Gen.c13SrcOptimizeDefaults = [("max_iterations", "20"), ("tolerance", "0.1"), ("method", "'" ++ defaultMethod ++ "'")] ∧
+      CBV.Gen.c13SrcAutoOptimizeDefaults = CBV.Gen.c13SrcOptimizeDefaults ∧
+      methods = CBV.Gen.c13Methods := by decide +kernel
+
+/-- **The control code, statement by statement.** The bodies of `optimize_clamp`, `_get_sensitivity`,
+    `optimize_iteration`, `optimize`, `GridBase.update`, `GridBase.clamps`, `get_junction_from_clamp`, both
+    back-ports, the reporter's `undo / rollback / skip`, its fields and defaults, `IterationData.__init__`,
+    `IterationDriver.__init__ / begin_iteration / end_iteration`, the caught exception class, the arguments of the
+    `scipy.optimize.minimize` call, `sorted(…, reverse=True)` and the default arguments, as regenerated from the
+    current source (print / report statements and timing dropped), are the ones `Model/C13.lean` and
+    `Model/C13Driver.lean` were written against. Any edit of these methods breaks this obligation. -/
+theorem T_C13_tie_statements :
+    CBV.Gen.c13SrcReporterFields =
+      [("index", ""), ("grid_initial", ""), ("junction_initial", ""), ("junction_final", "1000000000000.0"), ("grid_final", "1000000000000.0"), ("skipped", "False"), ("rolled_back", "False")] ∧
+    CBV.Gen.c13SrcReporterUndo =
+      ["self.junction_final = self.junction_initial", "self.grid_final = self.grid_initial"] ∧
+    CBV.Gen.c13SrcReporterRollback =
+      ["self.rolled_back = True", "self.undo()"] ∧
+    CBV.Gen.c13SrcReporterSkip =
+      ["self.skipped = True", "self.undo()"] ∧
+    CBV.Gen.c13SrcIterInit =
+      ["self.index = index", "self.initial_quality = initial_quality", "self.final_quality: float = VBIG"] ∧
+    CBV.Gen.c13SrcDriverInit =
+      ["self.max_iterations = max_iterations", "self.tolerance = tolerance", "self.iterations: List[IterationData] = []"] ∧
+    CBV.Gen.c13SrcBeginIteration =
+      ["iteration = IterationData(len(self.iterations), quality)", "iteration.report_begin()", "self.iterations.append(iteration)", "return iteration"] ∧
+    CBV.Gen.c13SrcEndIteration =
+      ["iteration = self.iterations[-1]", "iteration.final_quality = quality", "iteration.report_end()"] ∧
+    CBV.Gen.c13SrcOptimizeClamp =
+      ["initial_params = copy.copy(clamp.params)", "junction = self.grid.get_junction_from_clamp(clamp)", "reporter = ClampOptimizationData(junction.index, self.grid.quality, junction.quality)", "reporter.report_start()", "def fquality(params):", "  clamp.update_params(params)", "  return self.grid.update(junction.index, clamp.position)", "try:", "  scipy.optimize.minimize(fquality, clamp.params, bounds=clamp.bounds, method=method)", "  reporter.junction_final = junction.quality", "  reporter.grid_final = self.grid.quality", "  if reporter.improvement <= 0:", "    reporter.rollback()", "    clamp.update_params(initial_params)", "    self.grid.update(junction.index, clamp.position)", "except ValueError:", "  reporter.skip()", "  clamp.update_params(initial_params)", "  self.grid.update(junction.index, clamp.position)", "reporter.report_end()"] ∧
+    CBV.Gen.c13SrcClampExcept =
+      ["ValueError"] ∧
+    CBV.Gen.c13SrcMinimizeArgs =
+      ["fquality", "clamp.params", "bounds=clamp.bounds", "method=method"] ∧
+    CBV.Gen.c13SrcSensitivity =
+      ["junction = self.grid.get_junction_from_clamp(clamp)", "initial_params = copy.copy(clamp.params)", "def fquality(clamp, junction, params):", "  clamp.update_params(params)", "  self.grid.update(junction.index, clamp.position)", "  return junction.quality", "try:", "  sensitivities = np.asarray(scipy.optimize.approx_fprime(clamp.params, lambda p: fquality(clamp, junction, p), epsilon=10 * TOL))", "  sensitivity = np.linalg.norm(sensitivities)", "except ValueError:", "  sensitivity = 0", "clamp.update_params(initial_params)", "self.grid.update(junction.index, clamp.position)", "return sensitivity"] ∧
+    CBV.Gen.c13SrcOptimizeIteration =
+      ["clamps = sorted(self.grid.clamps, key=lambda c: self._get_sensitivity(c), reverse=True)", "for clamp in clamps:", "  self.optimize_clamp(clamp, method)"] ∧
+    CBV.Gen.c13SrcSortedReverse =
+      ["reverse=True"] ∧
+    CBV.Gen.c13SrcOptimize =
+      ["driver = IterationDriver(max_iterations, tolerance)", "while not driver.converged:", "  driver.begin_iteration(self.grid.quality)", "  self.optimize_iteration(method)", "  driver.end_iteration(self.grid.quality)", "if self.report:", "  end_quality = driver.iterations[-1].final_quality", "  start_quality = driver.iterations[0].initial_quality", "  abs_improvement = start_quality - end_quality", "  rel_improvement = abs_improvement / start_quality", "self.backport()", "return driver"] ∧
+    CBV.Gen.c13SrcOptimizeDefaults =
+      [("max_iterations", "20"), ("tolerance", "0.1"), ("method", "'SLSQP'")] ∧
+    CBV.Gen.c13SrcAutoOptimizeDefaults =
+      [("max_iterations", "20"), ("tolerance", "0.1"), ("method", "'SLSQP'")] ∧
+    CBV.Gen.c13SrcGridUpdate =
+      ["self.points[index] = position", "junction = self.junctions[index]", "if len(junction.links) > 0:", "  for indexed_link in junction.links:", "    indexed_link.link.leader = position", "    indexed_link.link.update()", "    self.points[indexed_link.follower_index] = indexed_link.link.follower", "  return self.quality", "return junction.quality"] ∧
+    CBV.Gen.c13SrcGridClamps =
+      ["clamps: List[ClampBase] = []", "for junction in self.junctions:", "  if junction.clamp is not None:", "    clamps.append(junction.clamp)", "return clamps"] ∧
+    CBV.Gen.c13SrcJunctionFromClamp =
+      ["for junction in self.junctions:", "  if junction.clamp == clamp:", "    return junction", "raise NoJunctionError"] ∧
+    CBV.Gen.c13SrcBackportMesh =
+      ["for (i, point) in enumerate(self.grid.points):", "  self.mesh.vertices[i].move_to(point)"] ∧
+    CBV.Gen.c13SrcBackportSketch =
+      ["self.sketch.update(self.grid.points)"] := by
+  refine ⟨?_, ?_, ?_, ?_, ?_, ?_, ?_, ?_, ?_, ?_, ?_, ?_, ?_, ?_, ?_, ?_, ?_, ?_, ?_, ?_, ?_, ?_⟩ <;> rfl
+
+
+/-! ### the iteration driver -/
+
+/-- **The driver object.** Alternating `begin_iteration(a)` / `end_iteration(b)` from a fresh
+    `IterationDriver(max_iterations, tolerance)` never hits the `IndexError` and builds exactly the iterations
+    `(index, a, b)` with indices `0, 1, 2, …`. -/
+theorem T_C13_driver_build (m : Int) (t : Rat) (hist : List (Rat × Rat)) :
+    hist.foldl (fun d h => ((d.beginIter h.1).endIter h.2).getD d) (Driver.new m t) = Driver.ofHist m t hist ∧
+      ∀ d a b, ((d : Driver).beginIter a).endIter b ≠ none := by
+  refine ⟨?_, fun d a b => by rw [driver_begin_end]; simp⟩
+  rw [driver_fold]
+  simp [Driver.new, Driver.ofHist]
+
+/-- **The loop's exit test is the driver's.** The test `converged (convRat tol) maxIter hist` the model loop makes
+    (and `c13.opt` runs) is `IterationDriver.converged` of the driver object holding these iterations — provided
+    the first iteration's initial quality is not 0, where python raises `ZeroDivisionError` (and ℚ's `x / 0 = 0`
+    would say "converged"). -/
+theorem T_C13_driver_conv (maxIter : Nat) (tol : Rat) (hist : List (Rat × Rat))
+    (h0 : ∀ a, hist.head? = some a → a.1 ≠ 0) :
+    converged (convRat tol) maxIter hist = decide ((Driver.ofHist maxIter tol hist).converged = .yes) :=
+  convRat_driver maxIter tol hist h0
+
+example : (∀ a, [((9 : Rat), (4 : Rat)), (4, 4)].head? = some a → a.1 ≠ 0) ∧
+    (Driver.ofHist 5 (1 / 10) [(9, 4), (4, 4)]).converged = .yes ∧
+    (Driver.ofHist 5 (1 / 10) [(0, 0), (0, 0)]).converged = .zeroDiv ∧
+    (Driver.ofHist 5 (1 / 10) [(9, 4)]).converged = .no := by
+  refine ⟨fun a h => ?_, by decide +kernel, by decide +kernel, by decide +kernel⟩
+  simp at h; subst h; norm_num
+
+/-- **Tolerance ≤ 0 switches the tolerance rule off.** If no iteration made the quality worse (`T_C13_noworse`)
+    and the first initial quality is positive, a driver with `tolerance ≤ 0` converges by the iteration limit
+    only: `optimize` then runs exactly `max_iterations` iterations. -/
+theorem T_C13_driver_tol0 (d : Driver) (htol : d.tol ≤ 0) (hmono : ∀ i ∈ d.its, i.final ≤ i.initial)
+    (hpos : ∀ i0, d.its.head? = some i0 → 0 < i0.initial) :
+    d.converged = .yes ↔ d.maxIter ≤ (d.its.length : Int) := by
+  unfold Driver.converged
+  by_cases h1 : d.maxIter ≤ (d.its.length : Int)
+  · simp [h1]
+  · simp only [h1, if_false, iff_false]
+    by_cases h2 : d.its.length < 2
+    · simp [h2]
+    · simp only [h2, if_false]
+      cases hh : d.its.head? with
+      | none => simp
+      | some i0 =>
+          have hp := hpos i0 hh
+          have hne : d.its ≠ [] := by intro h; rw [h] at hh; simp at hh
+          have hlast : 0 < d.lastImprovement := by
+            unfold Driver.lastImprovement
+            rw [if_neg h2]
+            cases hl : d.its.getLast? with
+            | none => norm_num [vbig]
+            | some l => exact iterData_improvement_pos l (hmono l (List.mem_of_getLast? hl))
+          have : ¬ d.lastImprovement / i0.initial < d.tol := by
+            have : 0 < d.lastImprovement / i0.initial := div_pos hlast hp
+            intro h; linarith
+          simp [ne_of_gt hp, this]
+
+example : (Driver.ofHist 3 0 [(9, 4), (4, 4)]).tol ≤ 0 ∧ (Driver.ofHist 3 0 [(9, 4), (4, 4)]).converged = .no ∧
+    (Driver.ofHist 2 0 [(9, 4), (4, 4)]).converged = .yes := by decide +kernel
+
+/-- **A stalled iteration stops the loop.** From the second iteration on, an iteration that changed nothing
+    (all steps rolled back or skipped: final = initial) ends `optimize`, as soon as
+    `VSMALL < tolerance · (first initial quality)`. -/
+theorem T_C13_driver_stall (d : Driver) (h2 : 2 ≤ d.its.length) (i0 l : IterData) (hh : d.its.head? = some i0)
+    (hl : d.its.getLast? = some l) (hsame : l.final = l.initial) (hp : 0 < i0.initial)
+    (htol : vsmall < d.tol * i0.initial) : d.converged = .yes := by
+  unfold Driver.converged
+  by_cases h1 : d.maxIter ≤ (d.its.length : Int)
+  · simp [h1]
+  · have h2' : ¬ d.its.length < 2 := by omega
+    have hlast : d.lastImprovement = vsmall := by
+      unfold Driver.lastImprovement
+      rw [if_neg h2', hl]
+      simp [IterData.improvement, hsame, ratAbs, vsmall]
+    have : d.lastImprovement / i0.initial < d.tol := by
+      rw [hlast, div_lt_iff₀ hp]; exact htol
+    simp [h1, h2', hh, ne_of_gt hp, this]
+
+example : (Driver.ofHist 9 (1 / 10) [(9, 4), (4, 4)]).converged = .yes ∧
+    vsmall < (1 / 10 : Rat) * 9 := by decide +kernel
+
+/-! ### the reporter -/
+
+/-- **Roll-back and skip report nothing gained.** After `rollback()` or `skip()` (also `skip()` after `rollback()`,
+    the path of a restore that raises) the record shows final = initial for grid and junction, improvement 0,
+    and the status column says `Skip` whenever `skipped` is set. -/
+theorem T_C13_reporter_undo (r : Reporter Rat) :
+    r.rollback.improvement = 0 ∧ r.skip.improvement = 0 ∧ r.rollback.skip.improvement = 0 ∧
+      r.rollback.gridFinal = r.gridInitial ∧ r.rollback.junctionFinal = r.junctionInitial ∧
+      r.skip.gridFinal = r.gridInitial ∧ r.skip.junctionFinal = r.junctionInitial ∧
+      r.rollback.skip.comment = "Skip" ∧ r.skip.comment = "Skip" ∧
+      (r.skipped = false → r.rollback.comment = "Rollback") := by
+  refine ⟨?_, ?_, ?_, rfl, rfl, rfl, rfl, rfl, rfl, ?_⟩ <;>
+    simp [Reporter.improvement, Reporter.rollback, Reporter.skip, Reporter.undo, Reporter.comment]
+
+/-- **A step record is truthful.** `optimize_clamp` from a rest state with grid quality `q0`, nothing raised:
+    there is a record, for this clamp, its `grid_initial` is `q0`, its `grid_final` is the grid quality of the
+    state the call leaves, never larger than `q0`, and strictly smaller exactly when the step is flagged as kept. -/
+theorem T_C13_report_step [LinearOrder Q] {cfg : Cfg P Prm} {n : Nat} (hwf : WF cfg n) (o : Oracles P Q)
+    (st : St P Prm) (hr : Rest cfg n st) (q0 : Q) (hq : o.gq st.pts = some q0) (j : Nat) (evals : List Prm) (sr : Bool)
+    (hnr : (optimizeClamp cfg o st j evals sr).raised = none) :
+    ∃ s, (optimizeClamp cfg o st j evals sr).step = some s ∧ s.clamp = j ∧ s.gridInitial = q0 ∧
+      o.gq (optimizeClamp cfg o st j evals sr).st.pts = some s.gridFinal ∧ s.gridFinal ≤ q0 ∧
+      (s.flag = .improved ↔ s.gridFinal < q0) :=
+  optimizeClamp_report hwf st hr q0 hq j evals sr hnr
+
+/-- **The records of a run.** `optimize` from a rest state with grid quality `q0`, nothing raised (`T_C13_noraise`):
+    the iteration records `(initial, final)` telescope from `q0` to the final grid quality `q1` (each iteration
+    starts where the previous one ended and never ends higher), and there is one list of step records per
+    iteration, with exactly one record per clamp, telescoping from that iteration's initial to its final quality. -/
+theorem T_C13_report_run [LinearOrder Q] [LinearOrder S] {cfg : Cfg P Prm} {n : Nat} (hwf : WF cfg n)
+    (o : Oracles P Q) (conv : List (Q × Q) → Bool) (maxIter : Nat) (sched : Nat → IterSched Prm S)
+    (st : St P Prm) (hr : Rest cfg n st) (q0 : Q) (hq : o.gq st.pts = some q0)
+    (hnr : (optimize cfg o conv maxIter sched st).raised = none) :
+    ∃ q1, o.gq (optimize cfg o conv maxIter sched st).st.pts = some q1 ∧
+      HistChain q0 (optimize cfg o conv maxIter sched st).hist q1 ∧
+      List.Forall₂ (fun h ss => Chain h.1 ss h.2 ∧ ss.length = cfg.clampIdx.length)
+        (optimize cfg o conv maxIter sched st).hist (optimize cfg o conv maxIter sched st).steps := by
+  obtain ⟨h', s', q1, e1, e2, e3, e4, e5⟩ := optimizeLoop_report hwf conv maxIter sched maxIter [] [] st hr q0 hq hnr
+  simp only [List.nil_append] at e1 e2
+  unfold optimize
+  rw [e1, e2]
+  exact ⟨q1, e3, e4, e5⟩
+
+/-- **Number of `optimize_clamp` calls.** At most `max_iterations` iterations, `len(clamps)` calls in each:
+    at most `max_iterations × len(clamps)` minimiser runs in one `optimize()`. -/
+theorem T_C13_report_calls [LinearOrder Q] [LinearOrder S] {cfg : Cfg P Prm} {n : Nat} (hwf : WF cfg n)
+    (o : Oracles P Q) (conv : List (Q × Q) → Bool) (maxIter : Nat) (sched : Nat → IterSched Prm S)
+    (st : St P Prm) (hr : Rest cfg n st) (q0 : Q) (hq : o.gq st.pts = some q0)
+    (hnr : (optimize cfg o conv maxIter sched st).raised = none) :
+    ((optimize cfg o conv maxIter sched st).steps.map List.length).sum =
+        (optimize cfg o conv maxIter sched st).hist.length * cfg.clampIdx.length ∧
+      ((optimize cfg o conv maxIter sched st).steps.map List.length).sum ≤ maxIter * cfg.clampIdx.length := by
+  obtain ⟨_, _, _, hf⟩ := T_C13_report_run hwf o conv maxIter sched st hr q0 hq hnr
+  have hlen := (T_C13_fuel cfg o conv maxIter sched st).2
+  have key : ∀ (hs : List (Q × Q)) (ss : List (List (Step Q))),
+      List.Forall₂ (fun h ss => Chain h.1 ss h.2 ∧ ss.length = cfg.clampIdx.length) hs ss →
+      (ss.map List.length).sum = hs.length * cfg.clampIdx.length := by
+    intro hs ss h
+    induction h with
+    | nil => simp
+    | cons h _ ih => simp only [List.map_cons, List.sum_cons, List.length_cons, ih, h.2]; ring
+  rw [key _ _ hf]
+  exact ⟨rfl, Nat.mul_le_mul_right _ hlen⟩
+
+/-- **The printed overall improvement.** With rational qualities: the numbers of the summary line of `optimize`
+    (`start_quality`, `end_quality`, `abs_improvement`) are the grid quality before, the grid quality after and
+    their difference; that difference is ≥ 0, is the sum of the iterations' `initial − final`, and each
+    iteration's `initial − final` is the sum of its step records' `grid_initial − grid_final`, all ≥ 0. -/
+theorem T_C13_report_total [LinearOrder S] {cfg : Cfg P Prm} {n : Nat} (hwf : WF cfg n)
+    (o : Oracles P Rat) (conv : List (Rat × Rat) → Bool) (maxIter : Nat) (sched : Nat → IterSched Prm S)
+    (st : St P Prm) (hr : Rest cfg n st) (q0 : Rat) (hq : o.gq st.pts = some q0) (hq0 : q0 ≠ 0) (tol : Rat)
+    (hnr : (optimize cfg o conv maxIter sched st).raised = none)
+    (hit : (optimize cfg o conv maxIter sched st).hist ≠ []) :
+    ∃ q1, o.gq (optimize cfg o conv maxIter sched st).st.pts = some q1 ∧ q1 ≤ q0 ∧
+      (Driver.ofHist maxIter tol (optimize cfg o conv maxIter sched st).hist).summary true =
+        .ok q0 q1 (q0 - q1) ((q0 - q1) / q0) ∧
+      q0 - q1 = ((optimize cfg o conv maxIter sched st).hist.map (fun h => h.1 - h.2)).sum ∧
+      List.Forall₂ (fun h ss => h.1 - h.2 = (ss.map (fun s => s.gridInitial - s.gridFinal)).sum ∧
+          ∀ s ∈ ss, 0 ≤ s.gridInitial - s.gridFinal)
+        (optimize cfg o conv maxIter sched st).hist (optimize cfg o conv maxIter sched st).steps := by
+  obtain ⟨q1, g1, hc, hf⟩ := T_C13_report_run hwf o conv maxIter sched st hr q0 hq hnr
+  obtain ⟨hsum, hle, hhead, hlast⟩ := histChain_sum hc
+  refine ⟨q1, g1, hle, ?_, hsum, ?_⟩
+  · generalize (optimize cfg o conv maxIter sched st).hist = hist at hit hhead hlast
+    obtain ⟨a, ha⟩ : ∃ a, hist.head? = some a := by
+      cases hist with
+      | nil => exact absurd rfl hit
+      | cons a t => exact ⟨a, rfl⟩
+    obtain ⟨b, hb⟩ : ∃ b, hist.getLast? = some b := by
+      cases h : hist.getLast? with
+      | none => exact absurd (List.getLast?_eq_none_iff.mp h) hit
+      | some b => exact ⟨b, rfl⟩
+    have e1 := hhead a ha
+    have e2 := hlast b hb
+    unfold Driver.summary
+    simp only [Bool.not_true, Bool.false_eq_true, if_false, ofHist_head, ofHist_last, ha, hb, Option.map_some, e1, e2,
+      hq0]
+  · exact hf.imp (fun _ _ h => ⟨(chain_sum h.1).1, (chain_sum h.1).2.2⟩)
+
+/-- hypotheses and conclusions of the report theorems on the instance: 9 → 0 → 0, one record per iteration -/
+example : (optimize exCfg exO exConv 2 exSched exSt0).raised = none ∧
+    (optimize exCfg exO exConv 2 exSched exSt0).hist = [(9, 0), (0, 0)] ∧
+    (optimize exCfg exO exConv 2 exSched exSt0).steps.map (·.map (fun s => (s.clamp, s.gridInitial, s.gridFinal)))
+      = [[(0, 9, 0)], [(0, 0, 0)]] := by decide
+
+/-! ### histories -/
+
+/-- **Any number of `optimize()` calls** on one optimizer (other methods, schedules, limits, tolerances; the
+    same clamps and links): every call starts from the rest state the previous one left; consistency is kept
+    and the grid quality after the last call is defined and not larger than before the first. -/
+theorem T_C13_noworse_history [LinearOrder Q] [LinearOrder S] {cfg : Cfg P Prm} {n : Nat} (hwf : WF cfg n)
+    (o : Oracles P Q) (calls : List (Call Prm Q S)) (st : St P Prm) (hr : Rest cfg n st) (q0 : Q)
+    (hq : o.gq st.pts = some q0) :
+    Rest cfg n (runCalls cfg o calls st) ∧ ∃ q, o.gq (runCalls cfg o calls st).pts = some q ∧ q ≤ q0 := by
+  induction calls generalizing st q0 with
+  | nil => exact ⟨hr, q0, hq, le_refl _⟩
+  | cons c cs ih =>
+      have hr1 := T_C13_on hwf o c.conv c.maxIter c.sched st hr
+      obtain ⟨q1, hq1, hle1⟩ := T_C13_noworse hwf o c.conv c.maxIter c.sched st hr q0 hq
+      obtain ⟨h1, q, h2, h3⟩ := ih _ hr1 q1 hq1
+      exact ⟨h1, q, h2, le_trans h3 hle1⟩
+
+/-- three calls on the instance -/
+example : (runCalls exCfg exO [⟨exConv, 2, exSched⟩, ⟨exConv, 1, fun _ => exSched 1⟩, ⟨exConv, 3, exSched⟩] exSt0).pts
+    = [0, 2, 12] := by decide
 
 end CBV.C13
